@@ -170,6 +170,7 @@ func checkCacheStructure(r *Run, p *packages.Package, lm *LockModel) {
 		fname := tname + "." + fn.Name()
 		// walk blocks
 		var visitBlock func(list []ast.Stmt, conds []ast.Expr, existsThen bool)
+		var negConds []ast.Expr // conditions known false here (else arms; guard clauses are nested first)
 		visitBlock = func(list []ast.Stmt, conds []ast.Expr, existsThen bool) {
 			for i, stt := range list {
 				switch s := stt.(type) {
@@ -193,6 +194,15 @@ func checkCacheStructure(r *Run, p *packages.Package, lm *LockModel) {
 									guarded = "enclosing condition " + exprString(r.Fset, c)
 								} else {
 									offByOne = exprString(r.Fset, c)
+								}
+							}
+						}
+						for _, c := range negConds {
+							if mentionsField(info, c, "Capacity") {
+								if capacityCompare(info, c, false) {
+									guarded = "reached only when `" + exprString(r.Fset, c) + "` is false"
+								} else {
+									offByOne = "!(" + exprString(r.Fset, c) + ")"
 								}
 							}
 						}
@@ -340,12 +350,37 @@ func checkCacheStructure(r *Run, p *packages.Package, lm *LockModel) {
 						}
 					}
 					visitBlock(s.Body.List, append(conds, s.Cond), exists)
+					// the else arm knows the condition is false; `!exists` false means the key exists
+					notExists := false
+					if u, ok := ast.Unparen(s.Cond).(*ast.UnaryExpr); ok && u.Op == token.NOT {
+						if c, ok := ast.Unparen(u.X).(*ast.Ident); ok {
+							if as, ok := s.Init.(*ast.AssignStmt); ok && len(as.Lhs) == 2 && len(as.Rhs) == 1 {
+								if ix, ok := ast.Unparen(as.Rhs[0]).(*ast.IndexExpr); ok && selectsField(info, ix.X, store) {
+									if id, ok := as.Lhs[1].(*ast.Ident); ok && info.Uses[c] == info.Defs[id] {
+										notExists = true
+									}
+								}
+							}
+							for _, prev := range list[:i] {
+								if as, ok := prev.(*ast.AssignStmt); ok && len(as.Lhs) == 2 && len(as.Rhs) == 1 {
+									if ix, ok := ast.Unparen(as.Rhs[0]).(*ast.IndexExpr); ok && selectsField(info, ix.X, store) {
+										if id, ok := as.Lhs[1].(*ast.Ident); ok && info.Uses[c] == info.Defs[id] {
+											notExists = true
+										}
+									}
+								}
+							}
+						}
+					}
+					saved := negConds
+					negConds = append(append([]ast.Expr(nil), negConds...), s.Cond)
 					switch e := s.Else.(type) {
 					case *ast.BlockStmt:
-						visitBlock(e.List, conds, false)
+						visitBlock(e.List, conds, notExists)
 					case *ast.IfStmt:
-						visitBlock([]ast.Stmt{e}, conds, false)
+						visitBlock([]ast.Stmt{e}, conds, notExists)
 					}
+					negConds = saved
 				case *ast.BlockStmt:
 					visitBlock(s.List, conds, existsThen)
 				case *ast.ForStmt:
@@ -355,7 +390,7 @@ func checkCacheStructure(r *Run, p *packages.Package, lm *LockModel) {
 				}
 			}
 		}
-		visitBlock(m.Decl.Body.List, nil, false)
+		visitBlock(nestGuardClauses(m.Decl.Body.List), nil, false)
 	}
 }
 
@@ -651,31 +686,48 @@ func checkDeletePresence(r *Run, p *packages.Package, lm *LockModel) {
 				r.Pass("C16-R4-pairing", construct, call.Pos(), "the key %s is read from an entry that was obtained from the store or the queue", key)
 				return true
 			}
-			// an enclosing `if` whose condition is the ok of a comma-ok lookup of the same key in the store
+			// the removal is reached only when the ok of a comma-ok lookup of the same key in the store is true: inside
+			// `if ok { … }`, or after `if !ok { return }`
 			guarded := false
-			for _, anc := range stack {
-				ifs, ok := anc.(*ast.IfStmt)
-				if !ok || call.Pos() < ifs.Body.Pos() || call.End() > ifs.Body.End() {
-					continue
-				}
-				condID, ok := ast.Unparen(ifs.Cond).(*ast.Ident)
-				if !ok {
-					continue
-				}
-				okObj := info.Uses[condID]
-				ast.Inspect(m.Decl.Body, func(x ast.Node) bool {
-					as, isAssign := x.(*ast.AssignStmt)
-					if !isAssign || len(as.Lhs) != 2 || len(as.Rhs) != 1 {
-						return true
-					}
-					okID, isID := as.Lhs[1].(*ast.Ident)
-					ix, isIndex := ast.Unparen(as.Rhs[0]).(*ast.IndexExpr)
-					if isID && isIndex && info.Defs[okID] == okObj && selectsField(info, ix.X, store) && exprString(r.Fset, ix.Index) == key && as.Pos() < call.Pos() {
-						guarded = true
-					}
+			okVars := map[types.Object]bool{}
+			ast.Inspect(m.Decl.Body, func(x ast.Node) bool {
+				as, isAssign := x.(*ast.AssignStmt)
+				if !isAssign || len(as.Lhs) != 2 || len(as.Rhs) != 1 || as.Pos() >= call.Pos() {
 					return true
-				})
+				}
+				okID, isID := as.Lhs[1].(*ast.Ident)
+				ix, isIndex := ast.Unparen(as.Rhs[0]).(*ast.IndexExpr)
+				if isID && isIndex && selectsField(info, ix.X, store) && exprString(r.Fset, ix.Index) == key {
+					okVars[info.ObjectOf(okID)] = true
+				}
+				return true
+			})
+			var holds func(e ast.Expr, neg bool) bool
+			holds = func(e ast.Expr, neg bool) bool {
+				e = ast.Unparen(e)
+				switch t := e.(type) {
+				case *ast.UnaryExpr:
+					if t.Op == token.NOT {
+						return holds(t.X, !neg)
+					}
+				case *ast.BinaryExpr:
+					if t.Op == token.LAND && !neg {
+						return holds(t.X, false) || holds(t.Y, false)
+					}
+					if t.Op == token.LOR && neg {
+						return holds(t.X, true) || holds(t.Y, true)
+					}
+				case *ast.Ident:
+					return !neg && okVars[info.Uses[t]]
+				}
+				return false
 			}
+			for _, l := range controlConds(m.Decl.Body, call) {
+				if holds(l.Expr, l.Neg) {
+					guarded = true
+				}
+			}
+			_ = stack
 			if guarded {
 				r.Pass("C16-R4-pairing", construct, call.Pos(), "the removal and its size decrement run only when the comma-ok lookup of %s found the key", key)
 			} else {
